@@ -48,7 +48,7 @@ Example call_forwarded_sat :
   conns s !! 2 = Some (get_conn s 2) /\ is_call (get_conn s 2) (CallFunction 9 1001 3 77) 9 1001 3 None 77 /\
   svc_by_cookie s 1001 = Some ((100, 200), get_svc s (100, 200)) /\ owner_of_svc s (100, 200) = Some 1 /\
   conns s !! 1 = Some (get_conn s 1) /\ cs_alive (get_conn s 1) = true /\
-  pick_serial s (Some 0) = Some (0, 0) /\ cs_calls (get_conn s 2) !! 9 = None.
+  pick_serial s (Some 0) = Some (0, 1) /\ cs_calls (get_conn s 2) !! 9 = None.
 Proof. cbv zeta. repeat split; try (vm_compute; reflexivity); left; split; reflexivity. Qed.
 
 Example reply_routed_sat :
@@ -156,5 +156,124 @@ Example call_dead_callee_sat :
   conns s !! 2 = Some (get_conn s 2) /\ is_call (get_conn s 2) (CallFunction 9 1001 3 77) 9 1001 3 None 77 /\
   svc_by_cookie s 1001 = Some ((100, 200), get_svc s (100, 200)) /\ owner_of_svc s (100, 200) = Some 1 /\
   conns s !! 1 = Some (get_conn s 1) /\ cs_alive (get_conn s 1) = false /\
-  pick_serial s (Some 0) = Some (0, 0) /\ cs_calls (get_conn s 2) !! 9 = None.
+  pick_serial s (Some 0) = Some (0, 1) /\ cs_calls (get_conn s 2) !! 9 = None.
 Proof. cbv zeta. repeat split; try (vm_compute; reflexivity); left; split; reflexivity. Qed.
+
+(* ================================================================ serial freshness (Broker/SerialProofs.v) *)
+From Aldrin Require Import Broker.SerialAlloc Broker.SerialProofs Props.C11_lemmas.
+
+(* a decision procedure for [legal_run] on concrete histories *)
+Definition legal_b (s : state) (i : input) : bool :=
+  bool_decide (i_fresh i ∉ cookies_in_use s) &&
+  (match i_ev i with NewConnection c _ => negb (bool_decide (is_Some (conns s !! c))) | _ => true end) &&
+  (N.of_nat (size (calls s)) <? 4294967296) &&
+  (match i_bserial i with
+   | Some b => match sm_choice s with Some (b', _) => bool_decide (b' = b) | None => false end
+   | None => true
+   end) &&
+  (match i_ev i with
+   | Message _ (CreateChannel _ (CReceiver cap)) | Message _ (ClaimChannelEnd _ _ (CReceiver cap))
+   | Message _ (AddChannelCapacity _ cap) => cap <=? u32_max
+   | _ => true
+   end).
+Fixpoint legal_run_b (s : state) (h : list input) : bool :=
+  match h with
+  | [] => true
+  | i :: rest => legal_b s i &&
+      match step s (i_ev i) (i_fresh i) (i_bserial i) with Done (s', _) => legal_run_b s' rest | _ => false end
+  end.
+
+Lemma legal_b_ok s i : legal_b s i = true -> legal s i.
+Proof.
+  unfold legal_b, legal. rewrite !andb_true_iff. intros ((((H1 & H2) & H3) & H4) & H5).
+  apply bool_decide_eq_true in H1. apply N.ltb_lt in H3. split; [exact H1|]. split; [|split; [split; [exact H3|]|]].
+  - destruct (i_ev i); try exact I. apply negb_true_iff, bool_decide_eq_false in H2.
+    destruct (conns s !! c) eqn:E; [exfalso; eauto|reflexivity].
+  - destruct (i_bserial i) as [b|]; [|exact I]. destruct (sm_choice s) as [[b' nxt]|]; [|discriminate].
+    apply bool_decide_eq_true in H4 as ->. eauto.
+  - destruct (i_ev i) as [| |c x| | | |]; try exact I. destruct x; try exact I.
+    + destruct e; [exact I|]. by apply N.leb_le.
+    + destruct e; [exact I|]. by apply N.leb_le.
+    + by apply N.leb_le.
+Qed.
+
+Lemma legal_run_b_ok h : forall s, legal_run_b s h = true -> legal_run s h.
+Proof.
+  induction h as [|i rest IH]; intros s; cbn [legal_run_b legal_run]; [done|].
+  rewrite andb_true_iff. intros [H1 H2]. split; [by apply legal_b_ok|]. intros s' o Hst. rewrite Hst in H2. by apply IH.
+Qed.
+
+(* connection 2 calls (broker serial 0), the owner answers (the table of pending calls is empty
+   again), connection 3 calls (broker serial 1, NOT 0 again), the owner repeats its answer to
+   the first call *)
+Definition h_answered : list input := h_base ++
+  [ inp (Message 2 (CallFunction 9 1001 3 77)) 0 (Some 0);
+    inp (Message 1 (CallFunctionReply 0 (CROk 5))) 0 None ].
+Definition h_next_call : list input := [ inp (Message 3 (CallFunction 9 1001 3 78)) 0 (Some 1) ].
+Definition h_reuse : list input := h_answered ++ h_next_call ++ [ inp (Message 1 (CallFunctionReply 0 (CROk 5))) 0 None ].
+
+Example serial_fresh_sat :
+  legal_run init (h_answered ++ h_next_call) /\
+  (exists s' os, run init (h_answered ++ h_next_call) = Done (s', os)) /\
+  advanced init (h_answered ++ h_next_call) = 2 /\ serials init (h_answered ++ h_next_call) = [0; 1].
+Proof.
+  split; [apply legal_run_b_ok; vm_compute; reflexivity|]. split; [|split; vm_compute; reflexivity].
+  vm_compute. eauto.
+Qed.
+
+Example duplicate_never_delivered_sat :
+  legal_run init (h_answered ++ h_next_call) /\
+  run init h_answered = Done (state_after h_answered, outs_after h_answered) /\
+  run (state_after h_answered) h_next_call =
+    Done (state_after (h_answered ++ h_next_call), drop 7 (outs_after (h_answered ++ h_next_call))) /\
+  advanced init (h_answered ++ h_next_call) <= 4294967296 /\
+  0 ∈ serials init h_answered /\ calls (state_after h_answered) !! 0 = None /\
+  calls (state_after (h_answered ++ h_next_call)) !! 1 = Some (get_call (state_after (h_answered ++ h_next_call)) 1).
+Proof.
+  split; [apply legal_run_b_ok; vm_compute; reflexivity|].
+  split; [vm_compute; reflexivity|]. split; [vm_compute; reflexivity|].
+  split; [vm_compute; discriminate|]. split; [vm_compute; apply elem_of_list_here|]. split; vm_compute; reflexivity.
+Qed.
+
+Example duplicate_dropped_run :
+  drop 5 (outs_after h_reuse) =
+  [ [(1, CallFunction2 0 1001 3 None 77, Some 20)];
+    [(2, CallFunctionReply 9 (CROk 5), Some 20)];
+    [(1, CallFunction2 1 1001 3 None 78, Some 14)];
+    [] ].
+Proof. vm_compute. reflexivity. Qed.
+
+(* ---- what the freshness theorem excludes: seeded defect C02-b.  SerialMap::insert with
+   "if self.elems.is_empty() { self.next = 0; }" in front of the loop = the allocator started from
+   0 whenever no call is pending.  [next] is read by the allocator only, so the broker machine
+   with that allocator is [step] run from the state with [next] reset. *)
+Definition reset_next (s : state) : state :=
+  match map_to_list (calls s) with [] => s <| next := 0 |> | _ => s end.
+Definition sm_choice_resetting (s : state) : option (N * N) := sm_choice (reset_next s).
+Definition step_resetting (s : state) (e : event) (f : uuid) (bs : option N) : outcome (state * list out) :=
+  step (reset_next s) e f bs.
+Fixpoint run_resetting (s : state) (h : list input) : list (option (N * N) * list out) :=
+  match h with
+  | [] => []
+  | i :: rest =>
+      match step_resetting s (i_ev i) (i_fresh i) (i_bserial i) with
+      | Done (s', o) | Fail (s', o) =>
+          (if allocates (reset_next s) (i_ev i) then sm_choice_resetting s else None, o) :: run_resetting s' rest
+      | Panic _ => []
+      end
+  end.
+Definition h_reuse_unobserved : list input := h_base ++
+  [ inp (Message 2 (CallFunction 9 1001 3 77)) 0 None;
+    inp (Message 1 (CallFunctionReply 0 (CROk 5))) 0 None;
+    inp (Message 3 (CallFunction 9 1001 3 78)) 0 None;
+    inp (Message 1 (CallFunctionReply 0 (CROk 5))) 0 None ].
+
+(* two successive calls get broker serial 0, and the owner's repeated answer to the first call
+   is delivered to the second caller *)
+Example resetting_allocator_reuses :
+  drop 5 (run_resetting init h_reuse_unobserved) =
+  [ (Some (0, 1), [(1, CallFunction2 0 1001 3 None 77, Some 20)]);
+    (None,        [(2, CallFunctionReply 9 (CROk 5), Some 20)]);
+    (Some (0, 1), [(1, CallFunction2 0 1001 3 None 78, Some 14)]);
+    (None,        [(3, CallFunctionReply 9 (CROk 5), Some 20)]) ].
+Proof. vm_compute. reflexivity. Qed.
